@@ -1,7 +1,6 @@
 package main
 
 import (
-	"strconv"
 	"encoding/json"
 	"fmt"
 	"go/types"
@@ -9,6 +8,7 @@ import (
 	"os/exec"
 	"path/filepath"
 	"sort"
+	"strconv"
 	"strings"
 
 	"golang.org/x/tools/go/ssa"
@@ -53,12 +53,17 @@ type FieldDesc struct {
 }
 
 type CexPlan struct {
-	Pkg     string      `json:"pkg"`      // package directory relative to the repository
+	Pkg     string      `json:"pkg"` // package directory relative to the repository
 	PkgName string      `json:"pkg_name"`
-	Call    string      `json:"call"`     // "%s" placeholders are the arguments in order
+	Call    string      `json:"call"`    // "%s" placeholders are the arguments in order
 	Imports [][2]string `json:"imports"` // (path, package name)
 	Dict    *CexDict    `json:"dict,omitempty"`
 	Params  []ParamDesc `json:"params"`
+	// executable postconditions (oracle.go): clause label -> Go source over the parameter names and r0, r1, …
+	Oracles  map[string]*OracleSrc `json:"oracles,omitempty"`
+	NResults int               `json:"n_results,omitempty"`
+	IsMethod bool              `json:"is_method,omitempty"`
+	FuncName string            `json:"func_name,omitempty"`
 }
 
 type ParamDesc struct {
@@ -115,7 +120,7 @@ func buildCexPlan(g *Gen) *CexPlan {
 			for i := 0; i < u.NumFields(); i++ {
 				fd, ok := desc(u.Field(i).Type(), depth+1)
 				if !ok {
-					return TypeDesc{}, false
+					fd = TypeDesc{Kind: "zero", Go: types.TypeString(u.Field(i).Type(), qual)}
 				}
 				td.Fields = append(td.Fields, FieldDesc{Name: u.Field(i).Name(), Type: fd})
 			}
@@ -136,6 +141,10 @@ func buildCexPlan(g *Gen) *CexPlan {
 					fd, ok = TypeDesc{Kind: "zero", Go: types.TypeString(ft, qual)}, true
 				default:
 					fd, ok = desc(ft, depth+1)
+					if !ok {
+						// a field of a shape the model reader cannot build (nested interface, array, …) stays at its zero value
+						fd, ok = TypeDesc{Kind: "zero", Go: types.TypeString(ft, qual)}, true
+					}
 				}
 				if !ok {
 					return TypeDesc{}, false
@@ -181,6 +190,10 @@ func buildCexPlan(g *Gen) *CexPlan {
 		plan.Call = strings.TrimSuffix(plan.Call, ")") + "...)"
 	}
 	plan.Dict = collectDict(f, qual)
+	plan.Oracles = oraclesFor(f, g.ctr)
+	plan.NResults = f.Signature.Results().Len()
+	plan.IsMethod = f.Signature.Recv() != nil
+	plan.FuncName = f.Name()
 	for p, n := range importNames {
 		plan.Imports = append(plan.Imports, [2]string{p, n})
 	}
@@ -191,11 +204,24 @@ func buildCexPlan(g *Gen) *CexPlan {
 // panicKinds: obligations whose violation is observable as a run-time panic of the function itself.
 var panicKinds = map[string]bool{"index": true, "slice": true, "div": true, "nil": true, "nilmap": true, "makeslice": true, "panic": true}
 
-var cexPlans = map[string]*CexPlan{} // function name -> plan (filled by the driver from the unit reports)
+var cexPlans = map[string]*CexPlan{} // "<unit>|<function>" -> plan (filled by the driver from the unit reports)
 
 func searchCounterexample(prop string, f failure, tier string) *Cex {
-	plan := cexPlans[f.Func]
-	if plan == nil || f.Ob.SMTFile == "" || !panicKinds[f.Ob.Kind] {
+	plan := cexPlans[f.Unit+"|"+f.Func]
+	if plan == nil || f.Ob.SMTFile == "" {
+		return nil
+	}
+	var oracle *OracleSrc
+	if f.Ob.Kind == "post" {
+		label := f.Ob.Name
+		if i := strings.Index(label, "@ret"); i >= 0 {
+			label = label[:i]
+		}
+		oracle = plan.Oracles[label]
+		if oracle == nil {
+			return nil
+		}
+	} else if !panicKinds[f.Ob.Kind] {
 		return nil
 	}
 	pj, _ := json.Marshal(plan)
@@ -234,7 +260,13 @@ func searchCounterexample(prop string, f failure, tier string) *Cex {
 	sb.WriteString(")\n\n")
 	fmt.Fprintf(&sb, "// Counterexample for %s/%s (%s), generated from the solver's model.\nfunc TestGovcCounterexample(t *testing.T) {\n", f.Func, f.Ob.Name, f.Ob.Pos)
 	sb.WriteString("\tdefer func() {\n\t\tif r := recover(); r != nil {\n\t\t\tt.Fatalf(\"DEFECT-REPRODUCED: %v\", r)\n\t\t}\n\t}()\n")
-	fmt.Fprintf(&sb, "\t"+plan.Call+"\n}\n", ia...)
+	if oracle == nil {
+		fmt.Fprintf(&sb, "\t"+plan.Call+"\n}\n", ia...)
+	} else {
+		// the postcondition itself is the oracle: evaluate it, as Go, on what the real function returned
+		sb.WriteString(oracleCallSrc(plan, res.Args, oracle, f.Ob.Name, "\t"))
+		sb.WriteString("}\n")
+	}
 	testFile := strings.TrimSuffix(f.Ob.SMTFile, ".smt2") + "_cex_test.go"
 	os.WriteFile(testFile, []byte(sb.String()), 0644)
 	cex.TestFile = testFile
@@ -242,7 +274,7 @@ func searchCounterexample(prop string, f failure, tier string) *Cex {
 	cex.Output = lastLines(o, 6)
 	cex.Reproduced = strings.Contains(o, "DEFECT-REPRODUCED")
 	if !cex.Reproduced {
-		if s := dictionarySearch(plan, res.Args, f); s != nil && s.Reproduced {
+		if s := dictionarySearch(plan, res.Args, f, oracle); s != nil && s.Reproduced {
 			s.Inputs = res.Args
 			s.Note = "the model's own inputs (field `inputs`) did not reproduce; the search found the input shown in `output`"
 			return s
@@ -440,7 +472,43 @@ func leavesOf(td TypeDesc, model string, d *CexDict, leaves *[]leaf) string {
 	return model
 }
 
-func dictionarySearch(plan *CexPlan, modelArgs []string, f failure) *Cex {
+// oracleCallSrc: statements that bind the parameters to the given argument expressions, call the real function and fail
+// the test when the (executable) postcondition is false.
+func oracleCallSrc(plan *CexPlan, args []string, oracle *OracleSrc, obName, ind string) string {
+	var sb strings.Builder
+	var names []string
+	for i, p := range plan.Params {
+		n := p.Name
+		if n == "" || n == "_" {
+			n = fmt.Sprintf("govcArg%d", i)
+		}
+		names = append(names, n)
+		fmt.Fprintf(&sb, "%s%s := %s\n%s_ = %s\n", ind, n, args[i], ind, n)
+	}
+	for _, st := range oracle.Pre {
+		fmt.Fprintf(&sb, "%s%s\n", ind, st)
+	}
+	var rs []string
+	for i := 0; i < plan.NResults; i++ {
+		rs = append(rs, fmt.Sprintf("r%d", i))
+	}
+	call := plan.FuncName + "(" + strings.Join(names, ", ") + ")"
+	if plan.IsMethod && len(names) > 0 {
+		call = names[0] + "." + plan.FuncName + "(" + strings.Join(names[1:], ", ") + ")"
+	}
+	if len(rs) > 0 {
+		fmt.Fprintf(&sb, "%s%s := %s\n", ind, strings.Join(rs, ", "), call)
+		for _, r := range rs {
+			fmt.Fprintf(&sb, "%s_ = %s\n", ind, r)
+		}
+	} else {
+		fmt.Fprintf(&sb, "%s%s\n", ind, call)
+	}
+	fmt.Fprintf(&sb, "%sif !(%s) {\n%s\tt.Fatalf(\"DEFECT-REPRODUCED: postcondition %s is false: inputs %%#v results %%#v\", []interface{}{%s}, []interface{}{%s})\n%s}\n", ind, oracle.Expr, ind, obName, strings.Join(names, ", "), strings.Join(rs, ", "), ind)
+	return sb.String()
+}
+
+func dictionarySearch(plan *CexPlan, modelArgs []string, f failure, oracle *OracleSrc) *Cex {
 	if plan.Dict == nil {
 		return nil
 	}
@@ -491,7 +559,15 @@ func dictionarySearch(plan *CexPlan, modelArgs []string, f failure) *Cex {
 		fmt.Fprintf(&body, "\tfor _, v%d := range c%d {\n", i, i)
 	}
 	call := fmt.Sprintf(plan.Call, exprs...)
-	fmt.Fprintf(&body, "\t\tif p := govcTry(func() { %s }); p != nil {\n\t\t\tt.Fatalf(\"DEFECT-REPRODUCED: %%v on input %%s\", p, fmt.Sprintf(\"%%#v\", []interface{}{%s}))\n\t\t}\n", call, joinVars(len(leaves)))
+	if oracle != nil {
+		var as []string
+		for _, e := range exprs {
+			as = append(as, e.(string))
+		}
+		fmt.Fprintf(&body, "\t\tfunc() {\n\t\t\tdefer func() { recover() }()\n%s\t\t}()\n\t\tif t.Failed() {\n\t\t\treturn\n\t\t}\n", strings.ReplaceAll(oracleCallSrc(plan, as, oracle, f.Ob.Name, "\t\t\t"), "t.Fatalf(", "t.Errorf("))
+	} else {
+		fmt.Fprintf(&body, "\t\tif p := govcTry(func() { %s }); p != nil {\n\t\t\tt.Fatalf(\"DEFECT-REPRODUCED: %%v on input %%s\", p, fmt.Sprintf(\"%%#v\", []interface{}{%s}))\n\t\t}\n", call, joinVars(len(leaves)))
+	}
 	for range leaves {
 		body.WriteString("\t}\n")
 	}
@@ -500,7 +576,7 @@ func dictionarySearch(plan *CexPlan, modelArgs []string, f failure) *Cex {
 			fmt.Fprintf(&sb, "\t%q\n", im[0])
 		}
 	}
-	sb.WriteString(")\n\nfunc govcTry(f func()) (p interface{}) {\n\tdefer func() { p = recover() }()\n\tf()\n\treturn nil\n}\n\n")
+	sb.WriteString(")\n\nfunc govcTry(f func()) (p interface{}) {\n\tdefer func() { p = recover() }()\n\tf()\n\treturn nil\n}\n\nvar _ = fmt.Sprint\nvar _ = govcTry\n\n")
 	fmt.Fprintf(&sb, "// Search for a failing input of %s/%s over the model values and the function's own constants.\nfunc TestGovcCounterexampleSearch(t *testing.T) {\n%s}\n", f.Func, f.Ob.Name, body.String())
 	testFile := strings.TrimSuffix(f.Ob.SMTFile, ".smt2") + "_search_test.go"
 	os.WriteFile(testFile, []byte(sb.String()), 0644)
